@@ -30,16 +30,14 @@ func holderMethod(name, typ string) *dg.Method {
 	return method(name, "POST", "/sole/"+name, &p, nil)
 }
 
-// holderNoMap: the same without the map (a type whose only validation is `required` on
-// primitive attributes is not validated below a map: recorded finding, witness stream).
-func holderNoMap(name, typ string) *dg.Method {
-	p := dg.A(dg.Obj(
-		dg.F("one", dg.Ref(typ)),
-		dg.F("arr", dg.ArrayOf(dg.A(dg.Ref(typ)))),
-		dg.F("arr2", dg.ArrayOf(dg.A(dg.ArrayOf(dg.A(dg.Ref(typ)))))),
+// holderDeep: the same plus three array levels (types whose only validation is `required`
+// on primitive attributes).
+func holderDeep(name, typ string) *dg.Method {
+	m := holderMethod(name, typ)
+	m.Payload.T.Attrs = append(m.Payload.T.Attrs,
 		dg.F("arr3", dg.ArrayOf(dg.A(dg.ArrayOf(dg.A(dg.ArrayOf(dg.A(dg.Ref(typ)))))))),
-		dg.F("twin", dg.Ref("Plain0"))))
-	return method(name, "POST", "/sole/"+name, &p, nil)
+		dg.F("arrmp", dg.ArrayOf(dg.A(dg.MapOf(dg.A(dg.Prim("String")), dg.A(dg.Ref(typ)))))))
+	return m
 }
 
 // soleCoveringDesign: one user type per X, hand-written.
@@ -97,7 +95,7 @@ func soleCoveringDesign() *dg.Design {
 			continue
 		}
 		if t.Name == "SoleReq" || t.Name == "SoleReqNested" {
-			s.Methods = append(s.Methods, holderNoMap("s_"+lower(t.Name), t.Name))
+			s.Methods = append(s.Methods, holderDeep("s_"+lower(t.Name), t.Name))
 			continue
 		}
 		s.Methods = append(s.Methods, holderMethod("s_"+lower(t.Name), t.Name))
